@@ -1,3 +1,5 @@
+import Grexv.Lemmas.AsciiR
+import Grexv.Lemmas.RepPresent
 import Grexv.Model.Format
 import Grexv.Lemmas.AsciiPipeline
 import Grexv.Lemmas.Stages
@@ -130,6 +132,32 @@ theorem output_ascii (cfg : Config) (hesc : cfg.esc = true) (hrep : cfg.rep = fa
     intro e he
     obtain ⟨c, _, rfl⟩ := List.mem_map.mp he
     trivial
+
+/-- **C11 for the model, whole pattern, all inputs with `-r`** with `-e` and repetition conversion, for every other setting (all
+thresholds, class options, `-i`, verbose mode, colours, capturing groups, any anchors), every list of test cases and every segmentation
+with non-empty pieces: whichever expression `RegExp::from` keeps, the returned text — counted quantifiers and groups included —
+consists of ASCII characters only -/
+theorem output_ascii_with_repetitions (cfg : Config) (hesc : cfg.esc = true) (hrep : cfg.rep = true) (env : Env) (ws : List Str)
+    (st : Stages) (h : regExpFrom cfg env ws = .ok st) (hseg : ∀ w ∈ st.sorted, ∀ p ∈ env.segOf w, p ≠ []) :
+    ∀ x ∈ fmtRegExp cfg st.finalAst, x < 128 :=
+  output_ascii_rep cfg hesc hrep env ws st h hseg
+
+/-- **C11 (reversible) with `-r`**: the text returned with `-e` and the text returned without are both accepted by the model of
+`Regex::new` and the two compiled patterns match exactly the same strings — `C06.presentation_same_language_with_repetitions`
+(settings that differ in `-e` only agree in everything S1–S6 read) -/
+theorem escapes_decode_to_same_language_with_repetitions (cfg : Config) (hp : RepPrint cfg) (env : Env) (ws : List Str)
+    (stE st0 : Stages) (hE : regExpFrom (withEsc cfg true) env ws = .ok stE)
+    (h0 : regExpFrom (withEsc cfg false) env ws = .ok st0)
+    (hseg : ∀ w ∈ storedCases cfg env ws, SegOK env w)
+    (hlen : ∀ w ∈ storedCases cfg env ws, (clusterOfPieces (env.segOf w)).length ≤ 1000)
+    (hne : ∃ t ∈ storedCases cfg env ws, t ≠ []) (s : Str) (hs : ∀ c ∈ s, Scalar c) :
+    ∃ PE P0, Spec.parse (fmtRegExp (withEsc cfg true) stE.finalAst) = some (⟨cfg.ci, false⟩, PE) ∧
+      Spec.parse (fmtRegExp (withEsc cfg false) st0.finalAst) = some (⟨cfg.ci, false⟩, P0) ∧
+      Spec.fullMatch cfg.ci PE s = Spec.fullMatch cfg.ci P0 s :=
+  rep_presentation_same_language (withEsc cfg true) (withEsc cfg false)
+    ⟨hp.rep, hp.minRep, hp.sur, hp.verb, hp.color, hp.anch⟩ ⟨hp.rep, hp.minRep, hp.sur, hp.verb, hp.color, hp.anch⟩
+    ⟨rfl, rfl, rfl, rfl, rfl, rfl, rfl, rfl, rfl, rfl⟩ env ws stE st0 hE h0 hseg
+    (fun w hw => by have := hlen w hw; rwa [clusterOfPieces_eq, List.length_map] at this) hne s hs
 
 /-- **C11 (reversible) for the model, all inputs without `-r`** for every subset of the class options, with or without
 capturing groups and the case-insensitive option: the text returned with `-e` (no surrogate pairs) and the text returned
